@@ -1,5 +1,6 @@
 import Urandom.Generated.GlueCtor
 import Urandom.Generated.GlueRandom
+import Urandom.Generated.GlueEntropy
 /-!
 # Constructors as translated from the source (C17, C09, C01)
 
@@ -25,9 +26,9 @@ theorem new_is_one_getrandom (ge : m St) (mk : St → G) (bnew : St → B) (mkc 
 
 /-- **with the translated `util::getrandom`: one entropy request over exactly the `size` bytes of the state**, all of it becomes the state -/
 theorem new_is_one_entropy_request (size : BitVec 64) (entropy : Pod → m Unit) (mk : Pod → G) :
-    Xoshiro256.new (util.getrandom size entropy) mk = (entropy ⟨size⟩ >>= fun _ => pure (mk ⟨size⟩)) ∧
-    SplitMix64.new (util.getrandom size entropy) mk = (entropy ⟨size⟩ >>= fun _ => pure (mk ⟨size⟩)) ∧
-    Wyrand.new (util.getrandom size entropy) mk = (entropy ⟨size⟩ >>= fun _ => pure (mk ⟨size⟩)) := by
+    Xoshiro256.new (util.getrandom size entropy) mk = (entropy (uninit size) >>= fun _ => pure (mk (uninit size))) ∧
+    SplitMix64.new (util.getrandom size entropy) mk = (entropy (uninit size) >>= fun _ => pure (mk (uninit size))) ∧
+    Wyrand.new (util.getrandom size entropy) mk = (entropy (uninit size) >>= fun _ => pure (mk (uninit size))) := by
   refine ⟨?_, ?_, ?_⟩ <;> simp [Xoshiro256.new, SplitMix64.new, Wyrand.new, util.getrandom, from_mut, uninit, Pod.assume_init]
 
 /-- `from_rng`: the 64-bit generators take ONE `next_u64` of the parent as their state; Xoshiro256 and ChaCha take ONE `random_bytes` over
@@ -41,7 +42,35 @@ theorem from_rng_takes_whole_state (R : Rng m σ) (mk64 : BitVec 64 → G) (rb :
 the `size` bytes of the state -/
 theorem xoshiro_from_rng_one_fill (R : Rng m σ) (size : BitVec 64) (mk : Pod → G) :
     Xoshiro256.from_rng (Random.random_bytes R (fun R => util.random_bytes R size util.fill_bytes_uninit)) mk =
-      (R.fill_bytes size >>= fun _ => pure (mk ⟨size⟩)) := by
+      (R.fill_bytes size >>= fun _ => pure (mk (uninit size))) := by
   simp [Xoshiro256.from_rng, Random.random_bytes, util.random_bytes, util.fill_bytes_uninit, from_raw_parts_mut, from_mut, uninit, Pod.assume_init]
+
+/-! ### the entropy layer (src/rng/entropy.rs), both back ends -/
+
+variable [Panics m]
+
+/-- **the extern `getentropy_raw` back end**: a non-empty destination is ONE request over the whole destination; `false` panics before
+anything is handed out; an empty destination makes no request -/
+theorem raw_backend (raw : Pod → BitVec 64 → m Bool) (buf : Pod) :
+    entropy.raw_getentropy_uninit raw buf =
+      (if buf.len > 0 then (raw buf buf.size_of_val >>= fun ok => if ok = false then (Panics.panic : m Unit) >>= fun _ => pure buf else pure buf)
+       else pure buf) := by
+  unfold entropy.raw_getentropy_uninit
+  by_cases h : buf.len > 0
+  · simp only [h, if_true]
+    congr 1; funext ok
+    cases ok <;> simp
+  · simp only [h, if_false]
+
+/-- **the `getrandom` back end**: ONE request over exactly `size_of_val(buf)` bytes; an error panics, success returns the destination -/
+theorem getrandom_backend (gr : BitVec 64 → m (Except Unit Unit)) (buf : Pod) :
+    entropy.getrandom_getentropy_uninit gr buf = (gr buf.size_of_val >>= fun r => match r with | .ok _ => pure buf | .error _ => Panics.panic) := by
+  unfold entropy.getrandom_getentropy_uninit from_raw_parts_mut
+  rfl
+
+/-- `getentropy` (initialised destination) is `getentropy_uninit` on the same destination, in both back ends -/
+theorem getentropy_forwards (gu : Pod → m Pod) (buf : Pod) :
+    entropy.raw_getentropy gu buf = gu buf ∧ entropy.getrandom_getentropy gu buf = gu buf := by
+  constructor <;> simp [entropy.raw_getentropy, entropy.getrandom_getentropy]
 
 end Urandom.C17R
